@@ -74,37 +74,319 @@ func intLits(n ast.Node) []int64 {
 	return out
 }
 
-// chunkLimit finds `len(<ident>) > N` in fd and returns N
-func chunkLimit(fd *ast.FuncDecl, ident string) (int64, bool) {
-	var res int64
-	found := false
-	ast.Inspect(fd, func(x ast.Node) bool {
-		be, ok := x.(*ast.BinaryExpr)
-		if !ok || be.Op != token.GTR {
-			return true
+// ---- recognisers which look through unexported helpers and named constants ------------------------------------
+//
+// A fact about "function F compares len(data) with N" or "F calls g(…, true)" should also hold when the
+// comparison or the call sits in a helper of the same file which F calls (parameters bound to F's arguments), when N
+// is a named constant or a constant expression, and when the comparison is written the other way round.
+
+// c09Arg is an argument expression together with the scope it has to be read in
+type c09Arg struct {
+	e     ast.Expr
+	scope c09Scope
+}
+
+// c09Scope binds the parameters of an inlined helper to the caller's argument expressions
+type c09Scope map[string]c09Arg
+
+// c09Ident follows parameter bindings and returns the identifier of the outermost function e stands for ("" if none)
+func c09Ident(e ast.Expr, sc c09Scope) string {
+	switch x := e.(type) {
+	case *ast.ParenExpr:
+		return c09Ident(x.X, sc)
+	case *ast.Ident:
+		if a, ok := sc[x.Name]; ok {
+			return c09Ident(a.e, a.scope)
 		}
-		call, ok := be.X.(*ast.CallExpr)
-		if !ok || exprString(call.Fun) != "len" || len(call.Args) != 1 || exprString(call.Args[0]) != ident {
-			return true
+		if _, inner := sc[c09Inner]; inner {
+			return "" // a local of the helper, whatever its name
 		}
-		if lit, ok := be.Y.(*ast.BasicLit); ok && lit.Kind == token.INT && !found {
-			v, _ := constant.Int64Val(constant.MakeFromLiteral(lit.Value, lit.Kind, 0))
-			if v != 0 {
-				res, found = v, true
+		return x.Name
+	}
+	return ""
+}
+
+// c09Inner marks the scope of an inlined helper (as opposed to the outermost function's)
+const c09Inner = "\x00inner"
+
+// c09Eval folds e to a constant: literals, named constants of the file (en), bound parameters, + - * / etc.,
+// parentheses and integer conversions
+func c09Eval(e ast.Expr, sc c09Scope, en env) constant.Value {
+	switch x := e.(type) {
+	case *ast.ParenExpr:
+		return c09Eval(x.X, sc, en)
+	case *ast.Ident:
+		if a, ok := sc[x.Name]; ok {
+			return c09Eval(a.e, a.scope, en)
+		}
+		return evalExpr(x, en)
+	case *ast.BinaryExpr:
+		a, b := c09Eval(x.X, sc, en), c09Eval(x.Y, sc, en)
+		if a == nil || b == nil || a.Kind() == constant.Unknown || b.Kind() == constant.Unknown {
+			return nil
+		}
+		switch x.Op {
+		case token.ADD, token.SUB, token.MUL:
+			return constant.BinaryOp(a, x.Op, b)
+		case token.QUO:
+			if a.Kind() == constant.Int && b.Kind() == constant.Int {
+				if constant.Sign(b) == 0 {
+					return nil
+				}
+				return constant.BinaryOp(a, token.QUO_ASSIGN, b) // integer division
 			}
+		}
+		return nil
+	case *ast.CallExpr:
+		if id, ok := x.Fun.(*ast.Ident); ok && len(x.Args) == 1 {
+			switch id.Name {
+			case "int", "int8", "int16", "int32", "int64", "uint", "uint8", "uint16", "uint32", "uint64", "byte":
+				return c09Eval(x.Args[0], sc, en)
+			}
+		}
+		return nil
+	}
+	return evalExpr(e, en)
+}
+
+func c09Params(fd *ast.FuncDecl) []string {
+	var ps []string
+	if fd.Type.Params != nil {
+		for _, fl := range fd.Type.Params.List {
+			for _, n := range fl.Names {
+				ps = append(ps, n.Name)
+			}
+		}
+	}
+	return ps
+}
+
+// c09Walk visits every node below root and, up to depth levels deep, the bodies of the plain functions of the same
+// file which are called from there (directly, deferred or via `go`), with their parameters bound to the arguments.
+func c09Walk(f *ast.File, root ast.Node, sc c09Scope, depth int, visit func(n ast.Node, sc c09Scope)) {
+	if root == nil {
+		return
+	}
+	ast.Inspect(root, func(n ast.Node) bool {
+		if n == nil {
+			return true
+		}
+		visit(n, sc)
+		call, ok := n.(*ast.CallExpr)
+		if !ok || depth <= 0 {
+			return true
+		}
+		id, ok := call.Fun.(*ast.Ident)
+		if !ok {
+			return true
+		}
+		callee := findFunc(f, "", id.Name)
+		if callee == nil || callee.Body == nil {
+			return true
+		}
+		ps := c09Params(callee)
+		if len(ps) != len(call.Args) {
+			return true // variadic or f(g()) forms: not followed
+		}
+		nsc := c09Scope{c09Inner: c09Arg{}}
+		for i, p := range ps {
+			nsc[p] = c09Arg{call.Args[i], sc}
+		}
+		c09Walk(f, callee.Body, nsc, depth-1, visit)
+		return true
+	})
+}
+
+// c09LenCmp is one comparison of len(<ident>) with a constant, normalised so that len() is on the left
+type c09LenCmp struct {
+	op token.Token
+	n  int64
+}
+
+var c09Mirror = map[token.Token]token.Token{token.GTR: token.LSS, token.LSS: token.GTR, token.GEQ: token.LEQ,
+	token.LEQ: token.GEQ, token.EQL: token.EQL, token.NEQ: token.NEQ}
+
+// c09LenCmps collects the comparisons `len(ident) OP <constant>` (either way round) and min(len(ident), <constant>)
+// (reported as op ILLEGAL) below root, helpers included.
+func c09LenCmps(f *ast.File, root ast.Node, ident string, en env) []c09LenCmp {
+	var res []c09LenCmp
+	isLen := func(e ast.Expr, sc c09Scope) bool {
+		for {
+			p, ok := e.(*ast.ParenExpr)
+			if !ok {
+				break
+			}
+			e = p.X
+		}
+		call, ok := e.(*ast.CallExpr)
+		return ok && exprString(call.Fun) == "len" && len(call.Args) == 1 && c09Ident(call.Args[0], sc) == ident
+	}
+	konst := func(e ast.Expr, sc c09Scope) (int64, bool) {
+		v := c09Eval(e, sc, en)
+		if v == nil || v.Kind() != constant.Int {
+			return 0, false
+		}
+		return constant.Int64Val(v)
+	}
+	c09Walk(f, root, c09Scope{}, 2, func(n ast.Node, sc c09Scope) {
+		switch x := n.(type) {
+		case *ast.BinaryExpr:
+			if _, ok := c09Mirror[x.Op]; !ok {
+				return
+			}
+			if isLen(x.X, sc) {
+				if v, ok := konst(x.Y, sc); ok {
+					res = append(res, c09LenCmp{x.Op, v})
+				}
+			} else if isLen(x.Y, sc) {
+				if v, ok := konst(x.X, sc); ok {
+					res = append(res, c09LenCmp{c09Mirror[x.Op], v})
+				}
+			}
+		case *ast.CallExpr:
+			if exprString(x.Fun) == "min" && len(x.Args) == 2 {
+				for i := 0; i < 2; i++ {
+					if isLen(x.Args[i], sc) {
+						if v, ok := konst(x.Args[1-i], sc); ok {
+							res = append(res, c09LenCmp{token.ILLEGAL, v})
+						}
+					}
+				}
+			}
+		}
+	})
+	return res
+}
+
+// c09SliceBounds collects the constant bounds N > 0 of `ident[0:N]` / `ident[:N]` (hi) and `ident[N:]` (lo) below
+// root, helpers included.
+func c09SliceBounds(f *ast.File, root ast.Node, ident string, en env) (hi, lo map[int64]bool) {
+	hi, lo = map[int64]bool{}, map[int64]bool{}
+	konst := func(e ast.Expr, sc c09Scope) (int64, bool) {
+		if e == nil {
+			return 0, false
+		}
+		v := c09Eval(e, sc, en)
+		if v == nil || v.Kind() != constant.Int {
+			return 0, false
+		}
+		return constant.Int64Val(v)
+	}
+	c09Walk(f, root, c09Scope{}, 2, func(n ast.Node, sc c09Scope) {
+		x, ok := n.(*ast.SliceExpr)
+		if !ok || c09Ident(x.X, sc) != ident {
+			return
+		}
+		l, lok := konst(x.Low, sc)
+		h, hok := konst(x.High, sc)
+		if (x.Low == nil || (lok && l == 0)) && hok && h > 0 {
+			hi[h] = true
+		}
+		if x.High == nil && lok && l > 0 {
+			lo[l] = true
+		}
+	})
+	return
+}
+
+// chunkLimit returns the N for which every round of fd's loop takes min(len(ident), N) bytes off the front of ident:
+//   - the piece is ident[0:N] (and the rest ident[N:]), N a literal, a named constant or a constant expression, in the
+//     loop itself or in a helper of the same file called from there with ident and N as arguments;
+//   - it is guarded by a comparison of len(ident) which makes that slice legal and otherwise takes all of ident:
+//     `len(ident) > N` in whichever spelling (N < len, len >= N, len > N-1, len <= N … else, min(len, N)).
+//
+// Where the piece is not cut with constant bounds (n := min(len(ident), N); ident[:n]) the guard alone gives N. The
+// loop condition len(ident) > 0 is not a guard. Different N in one function are an error.
+func chunkLimit(f *ast.File, fd *ast.FuncDecl, ident string, en env) (int64, bool) {
+	guards, his, los := map[int64]bool{}, map[int64]bool{}, map[int64]bool{}
+	scan := func(root ast.Node) {
+		for _, c := range c09LenCmps(f, root, ident, en) {
+			v := c.n // the piece is cut when len(ident) > v
+			switch c.op {
+			case token.GTR, token.LEQ, token.ILLEGAL:
+			case token.GEQ, token.LSS:
+				v--
+			default:
+				continue
+			}
+			if v > 0 {
+				guards[v] = true
+			}
+		}
+		h, l := c09SliceBounds(f, root, ident, en)
+		for v := range h {
+			his[v] = true
+		}
+		for v := range l {
+			los[v] = true
+		}
+	}
+	ast.Inspect(fd, func(x ast.Node) bool {
+		switch l := x.(type) {
+		case *ast.ForStmt:
+			scan(l.Body)
+		case *ast.RangeStmt:
+			scan(l.Body)
 		}
 		return true
 	})
-	return res, found
+	if len(guards) == 0 && len(his) == 0 {
+		scan(fd.Body)
+	}
+	single := func(m map[int64]bool) (int64, bool) {
+		if len(m) != 1 {
+			return 0, false
+		}
+		for v := range m {
+			return v, true
+		}
+		return 0, false
+	}
+	if len(his) == 0 && len(los) == 0 {
+		return single(guards)
+	}
+	n, ok := single(his)
+	if !ok || len(los) > 1 || (len(los) == 1 && !los[n]) {
+		return 0, false
+	}
+	// the guard must imply len(ident) >= n where the piece is cut and len(ident) <= n where all is taken
+	if len(guards) == 0 {
+		return 0, false
+	}
+	for g := range guards {
+		if g != n && g != n-1 {
+			return 0, false
+		}
+	}
+	return n, true
 }
 
-func countCalls(n ast.Node, name string, pred func(*ast.CallExpr) bool) int {
+// c09CountCalls counts the call sites of name(…) which satisfy pred, reached from fd directly or through helpers of the
+// same file (each call site of a helper counts the helper's sites once more). pred sees the arguments as the
+// outermost caller wrote them: a parameter handed through is replaced by the argument it is bound to.
+func c09CountCalls(f *ast.File, fd *ast.FuncDecl, name string, pred func(args []ast.Expr) bool) int {
 	c := 0
-	ast.Inspect(n, func(x ast.Node) bool {
-		if call, ok := x.(*ast.CallExpr); ok && exprString(call.Fun) == name && (pred == nil || pred(call)) {
+	var through func(e ast.Expr, sc c09Scope) ast.Expr
+	through = func(e ast.Expr, sc c09Scope) ast.Expr {
+		if id, ok := e.(*ast.Ident); ok {
+			if a, ok := sc[id.Name]; ok {
+				return through(a.e, a.scope)
+			}
+		}
+		return e
+	}
+	c09Walk(f, fd.Body, c09Scope{}, 2, func(n ast.Node, sc c09Scope) {
+		call, ok := n.(*ast.CallExpr)
+		if !ok || exprString(call.Fun) != name {
+			return
+		}
+		args := make([]ast.Expr, len(call.Args))
+		for i, a := range call.Args {
+			args[i] = through(a, sc)
+		}
+		if pred == nil || pred(args) {
 			c++
 		}
-		return true
 	})
 	return c
 }
@@ -313,6 +595,7 @@ func init() {
 
 		// --- wrap.go chunk sizes
 		wf := parse("internal/streams/dns/util/wrap.go")
+		wen := fileConsts(wf, nil)
 		for _, w := range []struct{ fn, lean string }{
 			{"WrapDnsResponseA", "wrapChunkA"}, {"WrapDnsResponseAAAA", "wrapChunkAAAA"},
 			{"WrapDnsResponseTxt", "wrapChunkTxt"}, {"WrapDnsResponseNull", "wrapChunkNull"},
@@ -323,24 +606,32 @@ func init() {
 				fail("%s not found", w.fn)
 				continue
 			}
-			v, ok := chunkLimit(fd, "data")
+			v, ok := chunkLimit(wf, fd, "data", wen)
 			if !ok {
-				fail("%s: len(data) > N not found", w.fn)
+				fail("%s: the loop does not cut min(len(data), N) bytes off data for one constant N", w.fn)
 			}
 			fmt.Fprintf(b, "/-- util/wrap.go %s: payload bytes per record -/\ndef %s : Nat := %d\n", w.fn, w.lean, v)
 		}
 		txtStrings := int64(0)
 		if fd := findFunc(wf, "", "WrapDnsResponseTxt"); fd != nil {
-			ast.Inspect(fd, func(x ast.Node) bool {
-				if be, ok := x.(*ast.BinaryExpr); ok && be.Op == token.EQL {
-					if call, ok := be.X.(*ast.CallExpr); ok && exprString(call.Fun) == "len" && len(call.Args) == 1 && exprString(call.Args[0]) == "txtData" {
-						if l, ok := be.Y.(*ast.BasicLit); ok && l.Value != "0" {
-							txtStrings, _ = constant.Int64Val(constant.MakeFromLiteral(l.Value, l.Kind, 0))
-						}
-					}
+			// the record is flushed when len(txtData) reaches N: `== N` or `>= N`, either way round, N any constant
+			for _, c := range c09LenCmps(wf, fd.Body, "txtData", wen) {
+				v := c.n
+				switch c.op {
+				case token.EQL, token.GEQ:
+				case token.GTR:
+					v++
+				default:
+					continue
 				}
-				return true
-			})
+				if v <= 0 || (c.op == token.GTR && c.n == 0) {
+					continue // `len(txtData) > 0`: the flush of the rest after the loop
+				}
+				if txtStrings != 0 && txtStrings != v {
+					fail("WrapDnsResponseTxt: len(txtData) compared with both %d and %d", txtStrings, v)
+				}
+				txtStrings = v
+			}
 		}
 		if txtStrings == 0 {
 			fail("WrapDnsResponseTxt: len(txtData) == N not found")
@@ -389,12 +680,13 @@ func init() {
 			fail("UnwrapDnsResponse not found")
 			return
 		}
-		boolArg := func(want string) func(*ast.CallExpr) bool {
-			return func(c *ast.CallExpr) bool { return len(c.Args) == 2 && exprString(c.Args[1]) == want }
+		// calls are counted through helpers of the same file (MX, SRV and CNAME may share one)
+		boolArg := func(want string) func([]ast.Expr) bool {
+			return func(a []ast.Expr) bool { return len(a) == 2 && exprString(a[1]) == want }
 		}
-		nNames := countCalls(un, "unescapePresentation", boolArg("true"))
-		nTxt := countCalls(un, "unescapePresentation", boolArg("false"))
-		nUndot := countCalls(un, "Undotify", nil)
+		nNames := c09CountCalls(wf, un, "unescapePresentation", boolArg("true"))
+		nTxt := c09CountCalls(wf, un, "unescapePresentation", boolArg("false"))
+		nUndot := c09CountCalls(wf, un, "Undotify", nil)
 		if !((nNames == 3 && nUndot == 0) || (nNames == 0 && nUndot == 3)) {
 			fail("UnwrapDnsResponse: unexpected mix of unescapePresentation(…, true) (%d) and Undotify (%d) calls", nNames, nUndot)
 		}
@@ -403,7 +695,7 @@ func init() {
 		}
 		esc := 0
 		if fd := findFunc(wf, "", "WrapDnsResponseTxt"); fd != nil {
-			esc = countCalls(fd, "strings.ReplaceAll", nil)
+			esc = c09CountCalls(wf, fd, "strings.ReplaceAll", nil)
 		}
 		fmt.Fprintf(b, "/-- util/wrap.go UnwrapDnsResponse decodes \\\\DDD / \\\\c in CNAME, MX, SRV targets (else it only removes dots) -/\ndef unwrapUnescapesNames : Bool := %v\n", nNames == 3)
 		fmt.Fprintf(b, "/-- util/wrap.go UnwrapDnsResponse decodes \\\\DDD / \\\\c in TXT strings -/\ndef unwrapUnescapesTxt : Bool := %v\n", nTxt == 1)
